@@ -50,7 +50,8 @@ Definition C03_peer_view_full : Prop :=
 
 (* the queue pair: both queues hold `cap` elements directly behind their 24-byte headers, lie in the
    mapping, do not overlap, and the mapping side's send queue IS the creating side's receive queue
-   (same capacity, same header-field addresses, same ring) and vice versa *)
+   (same capacity, same header-field addresses, same ring) and vice versa.  create_qm / map_qm place
+   the queues on the halves given by the generated indices off_halves_* of Gen/Consts.v *)
 Definition C03_queues_full : Prop :=
   forall cap m, 0 <= cap < 4294967296 ->
     exists A memSize m' B,
@@ -136,6 +137,33 @@ Theorem C03_queues_partial : forall cap m,
     qm_send B = qm_recv A /\ qm_recv B = qm_send A.
 Proof. exact queues_spec. Qed.
 Print Assumptions C03_queues_partial.
+
+(* the same for the memfd back-end (createQueueManagerWithMemFd / mappingQueueManagerMemfd) *)
+Theorem C03_queues_memfd_partial : forall cap m,
+  0 <= cap ->
+  c_queueHeaderLength + c_queueElementLen * cap < 4294967296 ->           (* G2 *)
+  exists A memSize m' B,
+    create_qm_memfd cap m = Ok (A, memSize, m') /\ map_qm_memfd memSize m' = Ok B /\
+    queues_ok cap A memSize /\
+    qm_send B = qm_recv A /\ qm_recv B = qm_send A.
+Proof. exact queues_spec_memfd. Qed.
+Print Assumptions C03_queues_memfd_partial.
+
+(* the cross-wiring on the half indices generated from the four functions of queue.go
+   (0 = mem[:size/2], 1 = mem[size/2:]): create.send = map.recv, create.recv = map.send, and the two
+   queues of one side sit on different halves — for both back-ends.  A wiring edit in the Go source
+   changes Gen/Consts.v and is re-checked here (and in the two theorems above) at coqc time. *)
+Theorem C03_cross_wiring :
+  (off_halves_mappingQueueManager_sendQueue = off_halves_createQueueManager_recvQueue /\
+   off_halves_mappingQueueManager_recvQueue = off_halves_createQueueManager_sendQueue /\
+   ((off_halves_createQueueManager_sendQueue = 0 /\ off_halves_createQueueManager_recvQueue <> 0) \/
+    (off_halves_createQueueManager_sendQueue <> 0 /\ off_halves_createQueueManager_recvQueue = 0))) /\
+  (off_halves_mappingQueueManagerMemfd_sendQueue = off_halves_createQueueManagerWithMemFd_recvQueue /\
+   off_halves_mappingQueueManagerMemfd_recvQueue = off_halves_createQueueManagerWithMemFd_sendQueue /\
+   ((off_halves_createQueueManagerWithMemFd_sendQueue = 0 /\ off_halves_createQueueManagerWithMemFd_recvQueue <> 0) \/
+    (off_halves_createQueueManagerWithMemFd_sendQueue <> 0 /\ off_halves_createQueueManagerWithMemFd_recvQueue = 0))).
+Proof. exact (conj wiring_file wiring_memfd). Qed.
+Print Assumptions C03_cross_wiring.
 
 (* without G2: cap = 357913940, 24 + 12*cap = 2^32 + 8, data[24:8] panics *)
 Theorem C03_queues_refuted : ~ C03_queues_full.
